@@ -91,15 +91,15 @@ theorem lemire_truncated (F : FTy) (hF : IsLemireFloat F) (q : Int) (w : Nat) (n
 /-! ## the capacity guard of `negative_digit_comp` from the closeness of the estimate -/
 
 set_option exponentiation.threshold 5000 in
-theorem pow_caps : 2 * 10 ^ 769 < 2 ^ 3968 ∧ 2 ^ 55 * 5 ^ 1093 < 2 ^ 3968 ∧ 10 ^ 1093 < 2 ^ 3968 :=
+theorem pow_caps : 2 * 10 ^ 770 < 2 ^ 3968 ∧ 2 ^ 55 * 5 ^ 1093 < 2 ^ 3968 ∧ 10 ^ 1093 < 2 ^ 3968 :=
   ⟨by decide +kernel, by decide +kernel, by decide +kernel⟩
 
-/-- both big integers of `negative_digit_comp` are about as large as the digits (`M < 10^769`) or as `b + h` scaled
+/-- both big integers of `negative_digit_comp` are about as large as the digits (`M < 10^770`) or as `b + h` scaled
 (`< 2^55·5^j`): `theor ≤ 2·M` when it is the one shifted left, `real < (2Q+4)·5^j` when that one is — because the estimate
 is a `40`-estimate of `M / 10^j` -/
 theorem neg_guard_bounds (Q K Sf mant M j L : Nat) (be : Int) (hbe : be = (K : Int) + j - (L + 1))
     (hQ : Q = mant / 2 ^ Sf) (hS40 : 40 ≤ 2 ^ Sf) (hQ0 : Q = 0 → K = 0) (hQ53 : Q < 2 ^ 53)
-    (hj : j ≤ 1093) (hM : M < 10 ^ 769)
+    (hj : j ≤ 1093) (hM : M < 10 ^ 770)
     (lo : mant * 2 ^ K * 10 ^ j ≤ M * 2 ^ L * 2 ^ Sf) (hi : M * 2 ^ L * 2 ^ Sf < (mant + 40) * 2 ^ K * 10 ^ j) :
     (2 * Q + 1) * 5 ^ j * 2 ^ be.toNat < 2 ^ 3968 ∧ M * 2 ^ (-be).toNat < 2 ^ 3968 := by
   obtain ⟨c1, c2, c3⟩ := pow_caps
@@ -170,7 +170,7 @@ theorem neg_guard_bounds (Q K Sf mant M j L : Nat) (be : Int) (hbe : be = (K : I
 /-- the same when the estimate rounds down to `+∞` (`K ≥ 2^eb − 2 = 2·bf`): the value is at least `2^(bf+1)`, so
 `theor = bh(+∞)·10^j`-scaled is at most `2·M` -/
 theorem neg_guard_inf_bounds (p bf K mant M j L Sf : Nat) (hp : 2 ≤ p) (hpb : p + 1 ≤ bf) (hK : 2 * bf ≤ K)
-    (hmant : 2 ^ Sf * 2 ^ (p - 1) ≤ mant) (hL : L = bf + (p - 1) - 1) (hM : M < 10 ^ 769)
+    (hmant : 2 ^ Sf * 2 ^ (p - 1) ≤ mant) (hL : L = bf + (p - 1) - 1) (hM : M < 10 ^ 770)
     (lo : mant * 2 ^ K * 10 ^ j ≤ M * 2 ^ L * 2 ^ Sf) :
     (2 * 2 ^ (p - 1) + 1) * 5 ^ j * 2 ^ (((2 * bf : Nat) : Int) - ((bf + (p - 1) : Nat) : Int) + j).toNat < 2 ^ 3968 ∧
     M * 2 ^ (-(((2 * bf : Nat) : Int) - ((bf + (p - 1) : Nat) : Int) + j)).toNat < 2 ^ 3968 := by
@@ -246,31 +246,55 @@ theorem maxDigits_decimal_le (feats : Features) {F : FTy} (hF : IsLemireFloat F)
   obtain ⟨c, p2, r, f, sd⟩ := feats
   rcases hF with h | h <;> subst h <;> cases c <;> cases p2 <;> cases r <;> exact ⟨_, rfl, by decide, by decide⟩
 
-/-- what `parse_mantissa` keeps of more than 19 significant digits (at most `d`, or zeros beyond): the first `cnt`
-digits, `19 ≤ cnt ≤ d` -/
-theorem mantissaOf_trunc {d : Nat} {sig : List Nat} (hd19 : 19 ≤ d) (hN : 19 < sig.length)
-    (hfew : sig.length ≤ d ∨ Slow.anyNonzero (sig.drop d) = false) :
-    ∃ cnt, C01Slow.mantissaOf 10 d sig = (ofDigits 10 (dv 10 (sig.take cnt)), cnt) ∧ 19 ≤ cnt ∧ cnt ≤ sig.length ∧
-      cnt ≤ d ∧ ofDigits 10 (dv 10 sig) = ofDigits 10 (dv 10 (sig.take cnt)) * 10 ^ (sig.length - cnt) := by
+/-- the first `k ≥ 19` digits lie in `[w, w + 1)·10^(k − 19)`, `w` the first 19 -/
+theorem prefix_interval {sig : List Nat} (hv : ValidDigits 10 sig) (k : Nat) (hk19 : 19 ≤ k) (hkN : k ≤ sig.length) :
+    ofDigits 10 (dv 10 (sig.take 19)) * 10 ^ (k - 19) ≤ ofDigits 10 (dv 10 (sig.take k)) ∧
+    ofDigits 10 (dv 10 (sig.take k)) < (ofDigits 10 (dv 10 (sig.take 19)) + 1) * 10 ^ (k - 19) := by
+  have hsplit := C01Number.ofDigits_dv_take_drop 10 (sig.take k) 19
+  have htail := ofDigits_dv_lt (valid_drop (valid_take hv k) 19)
+  rw [List.take_take, Nat.min_eq_left hk19, List.length_drop, List.length_take, Nat.min_eq_left hkN] at hsplit
+  rw [List.length_drop, List.length_take, Nat.min_eq_left hkN] at htail
+  have : (ofDigits 10 (dv 10 (sig.take 19)) + 1) * 10 ^ (k - 19) =
+      ofDigits 10 (dv 10 (sig.take 19)) * 10 ^ (k - 19) + 10 ^ (k - 19) := by ring
+  omega
+
+/-- what `parse_mantissa` keeps of more than 19 significant digits: `cnt` digits, `19 ≤ cnt ≤ d + 1`, whose value lies in
+`[w, w + 1)·10^(cnt − 19)` — the first `d` digits, or those followed by the digit `1` that stands for a non-zero cut tail -/
+theorem mantissaOf_interval {d : Nat} {sig : List Nat} (hv : ValidDigits 10 sig) (hd19 : 19 ≤ d) (hN : 19 < sig.length) :
+    ∃ M cnt, C01Slow.mantissaOf 10 d sig = (M, cnt) ∧ 19 ≤ cnt ∧ cnt ≤ d + 1 ∧
+      ofDigits 10 (dv 10 (sig.take 19)) * 10 ^ (cnt - 19) ≤ M ∧
+      M < (ofDigits 10 (dv 10 (sig.take 19)) + 1) * 10 ^ (cnt - 19) := by
+  unfold C01Slow.mantissaOf
   by_cases hle : sig.length ≤ d
-  · refine ⟨sig.length, ?_, by omega, Nat.le_refl _, hle, ?_⟩
-    · unfold C01Slow.mantissaOf; rw [if_pos hle, List.take_length]
-    · rw [List.take_length, Nat.sub_self, Nat.pow_zero, Nat.mul_one]
-  · have hz : Slow.anyNonzero (sig.drop d) = false := by
-      rcases hfew with h | h
-      · exact absurd h hle
-      · exact h
-    refine ⟨d, ?_, hd19, by omega, Nat.le_refl _, ?_⟩
-    · unfold C01Slow.mantissaOf; rw [if_neg hle, hz]; simp
-    · have := C01Number.ofDigits_dv_take_drop 10 sig d
-      rw [C01Slow.ofDigits_zero_tail 10 _ hz, Nat.add_zero, List.length_drop] at this
-      exact this
+  · rw [if_pos hle]
+    obtain ⟨a, b⟩ := prefix_interval hv sig.length (by omega) (Nat.le_refl _)
+    rw [List.take_length] at a b
+    exact ⟨_, _, rfl, by omega, by omega, a, b⟩
+  · rw [if_neg hle]
+    obtain ⟨a, b⟩ := prefix_interval hv d hd19 (by omega)
+    by_cases hz : Slow.anyNonzero (sig.drop d) = true
+    · rw [if_pos hz]
+      refine ⟨_, _, rfl, by omega, Nat.le_refl _, ?_, ?_⟩
+      · have e : d + 1 - 19 = (d - 19) + 1 := by omega
+        rw [e, Nat.pow_succ]
+        calc ofDigits 10 (dv 10 (sig.take 19)) * (10 ^ (d - 19) * 10)
+            = (ofDigits 10 (dv 10 (sig.take 19)) * 10 ^ (d - 19)) * 10 := by ring
+          _ ≤ ofDigits 10 (dv 10 (sig.take d)) * 10 := Nat.mul_le_mul_right _ a
+          _ ≤ ofDigits 10 (dv 10 (sig.take d)) * 10 + 1 := Nat.le_succ _
+      · have e : d + 1 - 19 = (d - 19) + 1 := by omega
+        rw [e, Nat.pow_succ]
+        have : (ofDigits 10 (dv 10 (sig.take 19)) + 1) * (10 ^ (d - 19) * 10) =
+            ((ofDigits 10 (dv 10 (sig.take 19)) + 1) * 10 ^ (d - 19)) * 10 := by ring
+        rw [this]
+        omega
+    · rw [if_neg hz]
+      exact ⟨_, _, rfl, hd19, by omega, a, b⟩
 
 /-! ## `SlowDomain` and the bracket for a truncated `Number` -/
 
 /-- **`SlowDomain` and the pipeline's bracket for the truncated decimal `Number`s**: the words of the `Number` are the
 first 19 significant digits and the matching exponent (`number_truncated_of_syntax`); `lemire` handed over an
-estimate `fp` of `w·10^q` from inside the table; at most `d = max_digits` significant digits, or zeros beyond. Then every
+estimate `fp` of `w·10^q` from inside the table. Then, for any number of digits, every
 condition of the slow-path model's domain holds — whether the estimate rounds down to a finite float or to `+∞` — and
 `fp` brackets the value of all the digits. -/
 theorem slowDomain_of_truncated {F : FTy} (hF : IsLemireFloat F) {p eb : Nat} (lay : Layout F p eb) (c : Cfg)
@@ -282,9 +306,7 @@ theorem slowDomain_of_truncated {F : FTy} (hF : IsLemireFloat F) {p eb : Nat} (l
       ((n.fraction.getD []).length : Int))
     (hq1 : -342 ≤ n.exponent) (hq2 : n.exponent ≤ 308) (fp : ExtendedFloat80)
     (hest : EstOK F p fp (powFrac 10 n.exponent n.mantissa).1 (powFrac 10 n.exponent n.mantissa).2)
-    (d : Nat) (hd : (Slow.envOf c.feats).S.maxDigits F.fmt 10 = some d) (hd19 : 19 ≤ d) (hd769 : d ≤ 769)
-    (hfew : (sigBytes n.integer n.fraction).length ≤ d ∨
-      Slow.anyNonzero ((sigBytes n.integer n.fraction).drop d) = false) :
+    (d : Nat) (hd : (Slow.envOf c.feats).S.maxDigits F.fmt 10 = some d) (hd19 : 19 ≤ d) (hd769 : d ≤ 769) :
     SlowDomain c F p n { fp with exp := fp.exp - invalidFp } d ∧
     Bracket F fp (litFrac 10 10 (numberLit c n)).1 (litFrac 10 10 (numberLit c n)).2 := by
   have FN := floatNums_of hF lay
@@ -327,33 +349,30 @@ theorem slowDomain_of_truncated {F : FTy} (hF : IsLemireFloat F) {p eb : Nat} (l
   have hfl : (numberLit c n).fracDigits.length = (n.fraction.getD []).length := by
     rw [hs.fracDigits, dv_length]
   have hE : (numberLit c n).exp = n.explicitExp := rfl
-  obtain ⟨cnt, hmo, hc19, hcN, hcd, hSM⟩ := mantissaOf_trunc hd19 hN hfew
-  -- the kept digits `M` lie in `[w, w + 1)·10^(cnt − 19)`
-  have hMsplit := C01Number.ofDigits_dv_take_drop 10 ((sigBytes n.integer n.fraction).take cnt) 19
-  have hMtail := ofDigits_dv_lt (valid_drop (valid_take hvs cnt) 19)
-  have hMlt := ofDigits_dv_lt (valid_take hvs cnt)
-  rw [List.take_take, Nat.min_eq_left hc19, ← hw, List.length_drop, List.length_take, Nat.min_eq_left hcN] at hMsplit
-  rw [List.length_drop, List.length_take, Nat.min_eq_left hcN] at hMtail
-  rw [List.length_take, Nat.min_eq_left hcN] at hMlt
+  obtain ⟨M, cnt, hmo, hc19, hcd, hM1, hM2⟩ := mantissaOf_interval (d := d) hvs hd19 hN
+  rw [← hw] at hM1 hM2
+  -- the whole digit string lies in `[w, w + 1)·10^(N − 19)`
+  have hSsplit := C01Number.ofDigits_dv_take_drop 10 (sigBytes n.integer n.fraction) 19
+  have hStail := ofDigits_dv_lt (valid_drop hvs 19)
+  rw [← hw, List.length_drop] at hSsplit
+  rw [List.length_drop] at hStail
   have hne : sigBytes n.integer n.fraction ≠ [] := by
     intro h0; rw [h0] at hN; simp at hN
   generalize hsig : sigBytes n.integer n.fraction = sig at *
   generalize hS : ofDigits 10 (dv 10 sig) = S at *
-  generalize hMv : ofDigits 10 (dv 10 (sig.take cnt)) = M at *
   generalize hfle : (n.fraction.getD []).length = fl at *
-  generalize htl : ofDigits 10 (dv 10 (List.drop 19 (List.take cnt sig))) = tl at *
-  have hM1 : n.mantissa * 10 ^ (cnt - 19) ≤ M := by omega
-  have hM2 : M < (n.mantissa + 1) * 10 ^ (cnt - 19) := by
-    have : (n.mantissa + 1) * 10 ^ (cnt - 19) = n.mantissa * 10 ^ (cnt - 19) + 10 ^ (cnt - 19) := by ring
-    omega
+  generalize htl : ofDigits 10 (dv 10 (List.drop 19 sig)) = tl at *
   have hM0 : 0 < M := Nat.lt_of_lt_of_le (Nat.mul_pos hw0 (Nat.pow_pos (by decide))) hM1
-  have hM769 : M < 10 ^ 769 := Nat.lt_of_lt_of_le hMlt (Nat.pow_le_pow_right (by decide) (by omega))
-  have hpw : 10 ^ (cnt - 19) * 10 ^ (sig.length - cnt) = 10 ^ (sig.length - 19) := by
-    rw [← Nat.pow_add]; congr 1; omega
-  have hS1 : n.mantissa * 10 ^ (sig.length - 19) ≤ S := by
-    rw [hSM, ← hpw, ← Nat.mul_assoc]; exact Nat.mul_le_mul_right _ hM1
+  have hMlt : M < 10 ^ cnt := by
+    calc M < (n.mantissa + 1) * 10 ^ (cnt - 19) := hM2
+      _ ≤ 10 ^ 19 * 10 ^ (cnt - 19) := Nat.mul_le_mul_right _ (by omega)
+      _ = 10 ^ cnt := by rw [← Nat.pow_add]; congr 1; omega
+  have hM769 : M < 10 ^ 770 := Nat.lt_of_lt_of_le hMlt (Nat.pow_le_pow_right (by decide) (by omega))
+  have hS1 : n.mantissa * 10 ^ (sig.length - 19) ≤ S := by omega
   have hS2 : S < (n.mantissa + 1) * 10 ^ (sig.length - 19) := by
-    rw [hSM, ← hpw, ← Nat.mul_assoc]; exact Nat.mul_lt_mul_of_pos_right hM2 (Nat.pow_pos (by decide))
+    have : (n.mantissa + 1) * 10 ^ (sig.length - 19) = n.mantissa * 10 ^ (sig.length - 19) + 10 ^ (sig.length - 19) := by
+      ring
+    omega
   have hkey : n.exponent + T + 1 - (sig.length : Int) = n.explicitExp - (fl : Int) := by omega
   have hV : litFrac 10 10 (numberLit c n) = (S * 10 ^ n.explicitExp.toNat, 10 ^ fl * 10 ^ (-n.explicitExp).toNat) := by
     rw [litFrac_eq, hD, hfl, hE]
@@ -386,7 +405,6 @@ theorem slowDomain_of_truncated {F : FTy} (hF : IsLemireFloat F) {p eb : Nat} (l
         _ = S * 10 ^ ((n.exponent + ↑T + 1 - ↑sig.length).toNat + (fl + (-n.explicitExp).toNat)) := by rw [e1]
         _ = S * 10 ^ (n.exponent + ↑T + 1 - ↑sig.length).toNat * (10 ^ fl * 10 ^ (-n.explicitExp).toNat) := by
             rw [Nat.pow_add, Nat.pow_add]; ring
-    · rw [hsig]; exact hfew
     · -- the capacity guard of `positive_digit_comp`
       rw [hr, hsig, hsci, hmo]
       intro hpos
